@@ -258,4 +258,12 @@ def _concrete_playback(u, h, crate, env, f, root, build):
     rr = replay.native_replay(u, h, vals, root, build)
     f['replay_result'] = rr
     if rr is not None and rr.get('reproduced') is False and rr.get('ran'):
-        f['spurious'] = True
+        # a failed CBMC memory-safety check (invalid/out-of-bounds pointer, bad dealloc, leak)
+        # is undefined behaviour that a native run need not turn into a panic: such a
+        # failure stands without native reproduction (only for in-place units, where CBMC ran
+        # the real code and nothing was over-approximated)
+        memsafe = re.search(r'dereference failure|pointer|same allocation|dealloc|memory leak|uninitialized', f.get('message', ''))
+        if not (memsafe and u.get('mode') == 'inplace' and not u.get('overapprox_stubs')):
+            f['spurious'] = True
+        else:
+            f['replay_note'] = 'memory-safety check of CBMC on the real code; native runs do not necessarily panic on undefined behaviour'
